@@ -67,7 +67,15 @@ pub fn parse_tag(i: &[u8]) -> nom::IResult<&[u8], StructureTag> {
 
             let mut tv: Vec<StructureTag> = Vec::new();
             while content.input_len() > 0 {
-                let (j, sub) = parse_tag(content)?;
+                // The length of this element is satisfied, so its content is all there
+                // is: a nested element which doesn't fit is an error, not a reason to
+                // wait for more input.
+                let (j, sub) = parse_tag(content).map_err(|e| match e {
+                    nom::Err::Incomplete(_) => {
+                        nom::Err::Error(Error::from_error_kind(content, ErrorKind::Eof))
+                    }
+                    e => e,
+                })?;
                 content = j;
                 tv.push(sub);
             }
